@@ -149,9 +149,20 @@ class BehavioralRTLIRToVVisitorL2( BehavioralRTLIRToVVisitorL1 ):
       body.extend( s.visit( stmt ) )
     make_indent( body, 1 )
 
+    # A counter that counts down must be signed: an unsigned one wraps around
+    # instead of dropping below the end value ( range(5, 0, -2) ). The
+    # bounds are then written as plain (signed) integers, because one sized
+    # (unsigned) literal would make the whole comparison unsigned again.
+    int_type = 'int unsigned'
+    if node.step._value < 0:
+      int_type = 'int'
+      if hasattr( node.start, '_value' ): start    = str( int( node.start._value ) )
+      if hasattr( node.end,   '_value' ): end      = str( int( node.end._value ) )
+      step_abs = str( -int( node.step._value ) )
+
     for_begin = \
-      'for ( int unsigned {v} = {s}; {v} {comp} {t}; {v} {inc}= {stp} ){begin}'.format(
-      v = loop_var, s = start, t = end, stp = step_abs,
+      'for ( {ty} {v} = {s}; {v} {comp} {t}; {v} {inc}= {stp} ){begin}'.format(
+      ty = int_type, v = loop_var, s = start, t = end, stp = step_abs,
       comp = cmp_op, inc = inc_op, begin = begin
     )
 
